@@ -299,10 +299,26 @@ func ruleP02Diff(p *Prog, r *Report) {
 					return
 				}
 				if g := staticCallee(c); g != nil && fnBase(g) == "Add" && len(c.Common().Args) == 2 {
-					n1, r1, _, _ := methodCall(c.Common().Args[0])
-					n2, r2, _, _ := methodCall(c.Common().Args[1])
+					// the minutes of a duration: x.InMinutes(), or the field itself on the receiver
+					minutesOperand := func(v ssa.Value) (string, ssa.Value) {
+						if n, rv, _, _ := methodCall(v); n == "InMinutes" {
+							return n, rv
+						}
+						if base, fld := fieldLoad(v); fld == "minutes" && base != nil {
+							return "InMinutes", base
+						}
+						return "", nil
+					}
+					n1, r1 := minutesOperand(c.Common().Args[0])
+					n2, r2 := minutesOperand(c.Common().Args[1])
 					if n1 == "InMinutes" && n2 == "InMinutes" && r1 != nil && r2 != nil {
 						recvIsSelf := func(v ssa.Value) bool {
+							if a, isA := v.(*ssa.Alloc); isA {
+								// the local copy of a value receiver
+								if sts := storesTo(a); len(sts) == 1 && strip(sts[0].val) == ssa.Value(plus.Params[0]) {
+									return true
+								}
+							}
 							return leafKey(v) == leafKey(plus.Params[0]) || sameValue(v, plus.Params[0]) || isLoadOfParamCopy(v, plus.Params[0])
 						}
 						if (recvIsSelf(r1) && strip(r2) == ssa.Value(plus.Params[1])) || (recvIsSelf(r2) && strip(r1) == ssa.Value(plus.Params[1])) {
@@ -340,7 +356,7 @@ func ruleP02Range(p *Prog, r *Report) {
 		return
 	}
 	for _, ret := range returnsOf(dur) {
-		m, ok := p.durationMinutes(retResult(ret, 0))
+		m, ok := p.durationMinutesArith(retResult(ret, 0))
 		good := false
 		if ok && m.C == 0 && len(m.Terms) == 2 {
 			var pos, neg string
@@ -412,9 +428,16 @@ func ruleP02Range(p *Prog, r *Report) {
 
 // offsetOf: v == X.<Start|End>().MidnightOffset().InMinutes() -> "Start"/"End".
 func offsetOf(v ssa.Value) string {
-	n, recv, _, _ := methodCall(v)
-	if n != "InMinutes" {
-		return ""
+	var n string
+	var recv ssa.Value
+	if m, isM := v.(*minutesOf); isM {
+		// the duration itself was handed to Minus / Plus
+		recv = m.of
+	} else {
+		n, recv, _, _ = methodCall(v)
+		if n != "InMinutes" {
+			return ""
+		}
 	}
 	n, recv, _, _ = methodCall(recv)
 	if n != "MidnightOffset" {
